@@ -33,7 +33,8 @@ class Untranslatable(Exception):
 
 
 NAT, BOOL, BYTES, CH, OPTCH, UNIT, U8, BD, DRAIN = "nat", "bool", "bytes", "ch", "optch", "unit", "u8", "bd", "drain"
-CHARS, STRS = "chars", "strs"      # what an iterator of `char` / of `&str` yields, as a list
+CHARS, STRS = "chars", "strs"
+UNITS, DECODED, RCH = "units", "decoded", "rch"     # `&[u16]`; what `decode_utf16` yields (a list of `Result<char, _>`); one such item      # what an iterator of `char` / of `&str` yields, as a list
 
 FUNCS = [
     # rust name, anchor, lean name, params [(rust name, type)], return type
@@ -62,9 +63,10 @@ FUNCS = [
     ("add_assign", "AddAssign<&'a str> for String<'bump>", "str_add_assign", [("other", BYTES)], UNIT),
     ("write_str", "fmt::Write for String<'bump>", "str_write_str", [("s", BYTES)], UNIT),
     ("write_char", "fmt::Write for String<'bump>", "str_write_char", [("c", CH)], UNIT),
+    ("from_utf16_in", IMPL, "str_from_utf16_in", [("v", UNITS)], UNIT),
 ]
 LEAN_TY = {NAT: "Nat", BOOL: "Bool", BYTES: "Str.Bytes", CH: "(Char × Nat)", OPTCH: "(Option (Char × Nat))", UNIT: "Unit", U8: "UInt8",
-           DRAIN: "(Nat × Nat)", CHARS: "(List Char)", STRS: "(List Str.Bytes)"}
+           DRAIN: "(Nat × Nat)", CHARS: "(List Char)", STRS: "(List Str.Bytes)", UNITS: "(List Nat)"}
 BY_NAME = {}
 
 
@@ -270,6 +272,12 @@ class T:
                 return self.X(args[0], env, lambda n, tn, e1: f"let s : RsS.SB := (([] : Str.Bytes), 0);\n" + self.bindc(f"RsS.reserve {n}", UNIT, e1, lambda r, tr, e2: k("self", "self", e2)))
             if segs == ["Ok"] and len(args) == 1:
                 return self.X(args[0], env, k)
+            if segs == ["decode_utf16"] and len(args) == 1:
+                return self.X(args[0], env, lambda u, tu, e1: k(f"(RsS.decode_utf16 {u})", DECODED, e1))
+            if segs == ["Err"] and len(args) == 1:
+                return k("__err__", "errval", env)
+            if segs == ["FromUtf16Error"]:
+                return k("()", UNIT, env)
             if segs == ["Some"] and len(args) == 1:
                 return self.X(args[0], env, lambda t, ty, env_: k(f"(some {t})", OPTCH, env_))
             raise Untranslatable(f"call of {'::'.join(segs)}")
@@ -327,6 +335,8 @@ class T:
                         if name in BY_NAME:
                             return self.bindc(f"Gen.Fn.{BY_NAME[name]} {' '.join((a + '.1') if ta == CH else a for a, ta in pa)}", UNIT, e1, k, can_panic=True)
                     if ty in (CHARS, STRS) and name == "into_iter" and not pa: return k(t, ty, e1)
+                    if ty == UNITS and name in ("iter", "cloned") and not pa: return k(t, UNITS, e1)
+                    if ty == UNITS and name == "len" and not pa: return k(f"{t}.length", NAT, e1)
                     if ty == CH and name == "len_utf8" and not pa: return k(f"{t}.2", NAT, e1)
                     if ty == CH and name == "encode_utf8": return k(f"(Str.encChar {t}.1)", BYTES, e1)
                     if ty == BYTES and name in ("as_bytes", "bytes") and not pa: return k(t, BYTES, e1)
@@ -341,6 +351,15 @@ class T:
             return self.WHILE(e, env, k)
         if kind == "foriter":
             return self.FORLIST(e, env, k)
+        if kind == "return":
+            return self.X(e[1], env, lambda t, ty, e1: "(s, Outcome.err)" if ty == "errval" else f"(s, Outcome.ok {t})")
+        if kind == "iflet" and e[1][0] == "pts" and e[1][1] == ["Ok"] and e[2][0] == "path" and env.get(e[2][1][0], (None, None))[1] == RCH:
+            item = env[e[2][1][0]][0]
+            c0, ch = self.fresh("c0"), self.fresh(e[1][2][0][1])
+            e_ok = dict(env); e_ok[e[1][2][0][1]] = (ch, CH)
+            a = self.X(e[3], e_ok, lambda t, ty, e2: k(t, ty, merge(env, e2)))
+            b = self.X(e[4], dict(env), lambda t, ty, e2: k(t, ty, merge(env, e2)))
+            return f"(match {item} with\n| some {c0} =>\nlet {ch} := ({c0}, (Str.encChar {c0}).length);\n{a}\n| none =>\n{b})"
         if kind == "tuple" and not e[1]:
             return k("()", UNIT, env)
         raise Untranslatable(f"expression form {kind}")
@@ -369,6 +388,19 @@ class T:
     def FORLIST(self, e, env, k):
         """`for x in iter { … }` over what the iterator yields (a list): a function recursive on that list"""
         _, pat, it, body = e
+        if pat[0] == "pid" and it[0] == "call" and it[1] == ("path", ["decode_utf16"]):
+            # the body may `return`: the loop function carries what follows the loop in its exit branch
+            def kd(lst, lty, e1):
+                name = f"{self.lean}.loop"
+                x, rest = self.fresh("x"), self.fresh("rest")
+                envl = dict(e1); envl[pat[1]] = (x, RCH)
+                again = lambda t, ty, e2: f"(Gen.Fn.{name} {rest} s)"
+                inner = self.B(body, envl, again) if body[0] == "block" else self.X(body, envl, again)
+                after = k("()", UNIT, e1)
+                self.lifted.append(f"def {name} : List (Option Char) → RsS.SB → RsS.SB × Outcome Unit\n  | [], s =>\n" + indent(after, 2)
+                                   + f"\n  | {x} :: {rest}, s =>\n" + indent(inner, 2) + "\n")
+                return f"(Gen.Fn.{name} {lst} s)"
+            return self.X(it, env, kd)
         if pat[0] != "pid" or it[0] != "path" or it[1][0] not in env or env[it[1][0]][1] not in (CHARS, STRS):
             raise Untranslatable("for over this value")
         lst, lty = env[it[1][0]]
